@@ -55,6 +55,8 @@ def run(ctx):
         ctx.report.rules[-1].id = "R03.6(R08.8)"
         from .. import wrappers
         wrappers.vv_conversions(ctx, rep, roles, "C03", "R03.7")
+        from .. import identity
+        identity.check(ctx, rep, "C03", "R03.8", ["id-eq", "id-ord", "vv-clone", "kvm-clone", "dsm-eq"])
     except ModelError as e:
         rep.rule("R03.x", "shared models")
         rep.violation("C03/" + e.key, e.msg, e.where)
